@@ -13,7 +13,7 @@ def mk(name, grp, hon, budget, aset, rset, early, invs, gen=False):
             hon, budget, aset, rset, "TRUE" if early else "FALSE", "TRUE" if gen else "FALSE"))
         f.write("INVARIANTS %s\nCHECK_DEADLOCK FALSE\n" % invs)
 # quick
-mk("MC_Coin_q_adv", G11, "H0", 3, "AllR", "R1", False, ALL)
+mk("MC_Coin_q_adv", G11, "H0", 3, "A2", "R1", False, ALL)
 mk("MC_Coin_q_hh", G11, "H01", 0, "AllR", "AllR", False, ALL)
 mk("MC_Coin_early", G11, "H0", 1, "AllR", "R1", True, "C17_Order")          # must be violated
 mk("MC_Coin_vac1", G11, "H0", 3, "A1", "R1", False, "NeverDone")            # must be violated
@@ -34,11 +34,11 @@ def mkn(name, grp, n, t, strict, mode, honp, devp, invs):
         f.write("SPECIFICATION Spec\nCONSTANTS\n P = %d\n Q = %d\n Gg = %d\n Hh = %d\n" % grp)
         f.write(" N = %d\n T = %d\n Strict = %s\n Mode = \"%s\"\n HonP <- %s\n DevP <- %s\n" % (n, t, "TRUE" if strict else "FALSE", mode, honp, devp))
         f.write("INVARIANTS %s\nCHECK_DEADLOCK FALSE\n" % invs)
-mkn("MC_CoinN_q3", G11, 3, 1, True, "byz", "PolysConst", "PolysConst", "Holds Interp")
+mkn("MC_CoinN_q3", G11, 3, 1, True, "byz", "PolysConst", "PolysOne", "Holds Interp")
 mkn("MC_CoinN_q3t", G11, 3, 1, True, "tamper", "PolysAll", "PolysConst", "Holds Interp")
-mkn("MC_CoinN_norule", G11, 3, 1, False, "byz", "PolysConst", "PolysConst", "Holds")      # must be violated
-mkn("MC_CoinN_vac1", G11, 3, 1, True, "byz", "PolysConst", "PolysConst", "NeverRecon")    # must be violated
-mkn("MC_CoinN_vac2", G11, 3, 1, True, "byz", "PolysConst", "PolysConst", "NeverDisq")     # must be violated
+mkn("MC_CoinN_norule", G11, 3, 1, False, "byz", "PolysOne", "PolysOne", "Holds")      # must be violated
+mkn("MC_CoinN_vac1", G11, 3, 1, True, "byz", "PolysOne", "PolysOne", "NeverRecon")    # must be violated
+mkn("MC_CoinN_vac2", G11, 3, 1, True, "byz", "PolysOne", "PolysOne", "NeverDisq")     # must be violated
 mkn("MC_CoinN_3", G11, 3, 1, True, "byz", "PolysAll", "PolysConst", "Holds Interp")
 mkn("MC_CoinN_4", G11, 4, 1, True, "byz", "PolysConst", "PolysConst", "Holds Interp")
 mkn("MC_CoinN_4t", G11, 4, 1, True, "tamper", "PolysAll", "PolysConst", "Holds Interp")
